@@ -713,9 +713,11 @@ func (c *checker) partC() {
 	}
 	if r.Thorough() {
 		jobs = []job{
-			{"memory", large, []int{1, 2, 3}, []float64{0, 0.5, u1}},
+			{"memory", large, []int{1, 2, 3}, []float64{0, u1}},
+			{"memory", large, []int{1, 2}, []float64{0.5}},
 			{"memory-noret", large, []int{1, 2, 3}, []float64{0}},
-			{"memory-nobatch", large, []int{1, 2, 3}, []float64{u1}},
+			{"memory-nobatch", large, []int{1, 2}, []float64{u1}},
+			{"memory-nobatch", small, []int{3}, []float64{u1}},
 			{"sqlite", large, []int{1, 2}, []float64{0}},
 			{"sqlite", small, []int{3}, []float64{0.5}},
 			{"sqlite-noret", small, []int{1, 2}, []float64{u1}},
@@ -896,7 +898,7 @@ func (c *checker) partD() {
 
 func TestCheck(t *testing.T) {
 	r := runner.Start("C06", "exploration")
-	c := &checker{r: r, t: t, deadline: r.Deadline(60*time.Second, 10*time.Minute)}
+	c := &checker{r: r, t: t, deadline: r.Deadline(75*time.Second, 14*time.Minute)}
 
 	if p := runner.ReplayPath(); p != "" {
 		raw, err := os.ReadFile(p)
